@@ -67,7 +67,7 @@ func gen(t *rapid.T) Case {
 	}
 	n := rapid.IntRange(1, maxOps).Draw(t, "nOps")
 	for i := 0; i < n; i++ {
-		k := rapid.SampledFrom([]string{"open", "open", "open", "write", "write", "close", "close", "update", "rename", "removeOld", "removeAll", "age", "openEmpty", "rewrite", "updateOpen"}).Draw(t, "kind")
+		k := rapid.SampledFrom([]string{"open", "open", "open", "write", "write", "close", "close", "update", "rename", "removeOld", "removeAll", "age", "openEmpty", "rewrite", "updateOpen", "retention", "retention", "close"}).Draw(t, "kind")
 		c.Ops = append(c.Ops, Op{
 			Kind: k, Dag: rapid.IntRange(0, nd-1).Draw(t, "dag"), Run: rapid.IntRange(0, 5).Draw(t, "run"),
 			TimeSel: rapid.SampledFrom([]int{0, 1, 2, 3, 4, 5, 0, 1, 2, 3, 4, 5, 6}).Draw(t, "timeSel"), MS: rapid.IntRange(0, 999).Draw(t, "ms"),
@@ -330,6 +330,44 @@ func (w *world) apply(o Op, labels map[string]bool) *failure {
 		if len(keep) > 0 && len(keep) < len(runs) {
 			labels["retention-partial"] = true
 		}
+		w.runs[d] = keep
+	case "retention":
+		// every finished run of the DAG gets an age of its own (file modification
+		// time: 0 h … 200 h, not related to the order in which the runs started —
+		// an old run updated today, a recent run untouched for days), then the
+		// retention pass with a positive period runs
+		if len(openRuns) > 0 || len(closedRuns) < 2 {
+			return nil
+		}
+		ages := []int{0, 30, 80, 200, 10, 60}
+		for i, r := range closedRuns {
+			sf, err := w.reader.FindByRequestID(w.loc(d), r.req)
+			if err != nil {
+				return fail("FindByRequestID(%q,%s) before ageing: %v", w.loc(d), r.req, err)
+			}
+			mt := w.now.Add(-time.Duration(ages[(i*5+o.Payload+o.Run)%len(ages)]) * time.Hour)
+			if err := os.Chtimes(sf.File, mt, mt); err != nil {
+				return fail("chtimes: %v", err)
+			}
+			r.mtime = mt
+		}
+		days := 1 + o.Days%3
+		if err := w.reader.RemoveOld(w.loc(d), days); err != nil {
+			return fail("RemoveOld failed: %v", err)
+		}
+		cut := w.now.AddDate(0, 0, -days)
+		var keep []*mrun
+		for _, r := range runs {
+			if r.mtime.Before(cut) {
+				labels["retention-removed-a-run"] = true
+				continue
+			}
+			keep = append(keep, r)
+		}
+		if len(keep) > 0 && len(keep) < len(runs) {
+			labels["retention-partial"] = true
+		}
+		labels["retention-on-unordered-ages"] = true
 		w.runs[d] = keep
 	case "removeAll":
 		if len(openRuns) > 0 {
